@@ -23,7 +23,8 @@ DECIDED = ("MIR makes unwinding explicit, so each clause is a path property: R5.
            "of the restore guard's destructor performs the restoring write - there is no edge (std::thread::panicking() in particular) on "
            "which it returns without restoring; R5.10 the trampoline allocator returns only a mapping it accepted, releases what it "
            "rejects and otherwise diverges (an exhausted search is one clean panic, not a dangling pointer or an endless retry); R5.11 no code write can fault: every entry write and the destructor's restoring write is preceded on its own path "
-           "by a protection change covering it (a refused or skipped protection change followed by the write is a SIGSEGV, not a panic)")
+           "by a protection change covering it (a refused or skipped protection change followed by the write is a SIGSEGV, not a panic); R5.12 the guard "
+           "restores at the address and with the length the installation wrote, so the destructor never asks for more pages than the install obtained")
 NOT_DECIDED = ("aborts caused by allocation failure inside std; panics inside a user fake with a non-unwinding ABI (excluded by the property)")
 
 ABORTING = ("std::process::abort", "std::process::exit", "std::panic::catch_unwind", "std::intrinsics::abort", "core::intrinsics::abort",
@@ -51,6 +52,37 @@ def null_refused_at_construction(ck, tm, rule):
                   "%s: every returning path is on the non-null edge: %s; the null edge diverges: %s" % (short(fn), okr, okd),
                   "%s:%d" % (st["span"]["file"], st["span"]["line"]))
     return n
+
+
+def guard_only_after_entry_write(ck, tm, g_, roots, rule):
+    """A restore guard is constructed only after the entry write it will undo has succeeded on that path (C05 R5.8; repeated by C04:
+    a guard that is alive while the first write can still be refused turns that refusal into a panic inside a destructor during
+    unwinding - an abort, after which no waiting thread ever gets its turn)."""
+    from .roles import get_by_path
+    n58 = 0
+    if g_.adt and g_.addr:
+        for p, func, repl, boolval in roots:
+            rn = short(p)
+            for v in tm.variants(p):
+                for path, tl, span, val in v.constructed:
+                    if path != g_.adt:
+                        continue
+                    n58 += 1
+                    try:
+                        addr = get_by_path(val, g_.addr)
+                    except Exception:
+                        addr = None
+                    wr = [ev for ev in code_writes(v) if ev.idx < tl and isinstance(addr, Int) and
+                          (same_expr(resolve_alias(v, ev.extra["dst"])[0].e, addr.e) or same_expr(ev.extra["dst"].e, addr.e))]
+                    ck.ob(rule, "%s/guard-built-after-entry-write" % rn, tm.target, bool(wr),
+                          "restore guard for %s is constructed %s" % (fmt(addr.e, 3) if isinstance(addr, Int) else "?",
+                              "after the entry write succeeded" if wr else "BEFORE any write at that address has succeeded on this path "
+                              "(path %s): if the write is refused (protection change fails) the panic unwinds through the live guard, whose "
+                              "destructor attempts the same protection change, is refused again and panics inside a destructor during "
+                              "unwinding - the process aborts" % v.status),
+                          "%s:%s" % (span["file"], span["line"]) if span else None)
+        ck.floor(rule, "guard-constructions-on-install-paths", n58, 6, tm.target)
+    return n58
 
 
 PAGE_SIZE_SOURCES = ("libc::sysconf",)
@@ -188,6 +220,11 @@ def run(ck, models, tier):
         # preceded on its own path by a protection change that covers it (C01 R1.3 on install and restore paths)
         k11 = write_protection_obligations(ck, tm, g_, "R5.11")
         ck.floor("R5.11", "code-writes-checked-for-protection", k11, 7, tm.target)
+        # ---------------- R5.12 the destructor's protection change is tabulated as an environment fault only because it asks for what the
+        # installation already obtained: the guard restores at the address, and as many bytes as, the installation wrote (C03 R3.8) - a wider
+        # restore can be refused where the install was not, and that panic comes out of a destructor
+        if g_.adt:
+            k12 = restore_lands_on_entry(ck, tm, g_, "R5.12", patches.roots_and_roles(tm))
         # ---------------- R5.7 no call-count state survives a lifetime that ended by unwinding: counters restart at every installation
         from .c07 import install_resets_counter
         install_resets_counter(ck, tm, "R5.7")
@@ -252,30 +289,7 @@ def run(ck, models, tier):
         # (premise of R5.2's tabulated environment faults: the guard's destructor repeats the protection change and the write; if
         # the guard is alive while the first attempt can still be refused, unwinding from that refusal runs the destructor into
         # the same refusal - a second panic, i.e. an abort)
-        from .roles import get_by_path
-        n58 = 0
-        if g_.adt and g_.addr:
-            for p, func, repl, boolval in roots:
-                rn = short(p)
-                for v in tm.variants(p):
-                    for path, tl, span, val in v.constructed:
-                        if path != g_.adt:
-                            continue
-                        n58 += 1
-                        try:
-                            addr = get_by_path(val, g_.addr)
-                        except Exception:
-                            addr = None
-                        wr = [ev for ev in code_writes(v) if ev.idx < tl and isinstance(addr, Int) and
-                              (same_expr(resolve_alias(v, ev.extra["dst"])[0].e, addr.e) or same_expr(ev.extra["dst"].e, addr.e))]
-                        ck.ob("R5.8", "%s/guard-built-after-entry-write" % rn, tm.target, bool(wr),
-                              "restore guard for %s is constructed %s" % (fmt(addr.e, 3) if isinstance(addr, Int) else "?",
-                                  "after the entry write succeeded" if wr else "BEFORE any write at that address has succeeded on this path "
-                                  "(path %s): if the write is refused (protection change fails) the panic unwinds through the live guard, whose "
-                                  "destructor attempts the same protection change, is refused again and panics inside a destructor during "
-                                  "unwinding - the process aborts" % v.status),
-                              "%s:%s" % (span["file"], span["line"]) if span else None)
-            ck.floor("R5.8", "guard-constructions-on-install-paths", n58, 6, tm.target)
+        guard_only_after_entry_write(ck, tm, g_, roots, "R5.8")
         # ---------------- R5.5
         ab = scans.abort_sites(tm.facts) + scans.forget_sites(tm.facts)
         for fn, name, t in ab:
